@@ -126,8 +126,30 @@ def reset_rules(R, ro):
         # matter are the RuntimeError raise itself and leaving the branch normally)
         rt_raises = [n for n in dcfg.nodes if n.kind == "stmt" and isinstance(n.ast, ast.Raise) and n.ast.exc is not None and
                      (q.call_name(n.ast.exc) if isinstance(n.ast.exc, ast.Call) else q.dotted(n.ast.exc)) == "RuntimeError"]
-        p = dcfg.find_path(starts, rt_raises + [dcfg.exit] + [n for n in dcfg.nodes if n.kind == "loop"], N, cut_nodes=resets,
-                           keep_edge=lambda e: not (e.implicit and dcfg.nodes[e.dst].kind == "except"))
+        ends_ = rt_raises + [dcfg.exit] + [n for n in dcfg.nodes if n.kind == "loop"]
+        noexc_ = lambda e: not (e.implicit and dcfg.nodes[e.dst].kind == "except")
+        p = dcfg.find_path(starts, ends_, N, cut_nodes=resets, keep_edge=noexc_)
+        if p is not None or not resets:
+            # reset() written out: the stack and the set of pending batches are both given fresh empty containers (or cleared)
+            sfq, bfq = "self." + ro.stack_field(), "self." + ro.batches_field()
+
+            def reinit(field):
+                out = []
+                for x in dcfg.nodes:
+                    if x.kind == "stmt" and isinstance(x.ast, ast.Assign) and any(q.src(t) == field for t in x.ast.targets):
+                        v = x.ast.value
+                        if (isinstance(v, (ast.List, ast.Set, ast.Dict)) and not getattr(v, "elts", getattr(v, "keys", []))) or \
+                                (isinstance(v, ast.Call) and q.call_name(v) in ("list", "set", "dict") and not v.args):
+                            out.append(x)
+                out += [x for x, c_ in kit.call_sites(drain, lambda c_: q.call_name(c_) == field + ".clear")]
+                return out
+            rs_, rb_ = reinit(sfq), reinit(bfq)
+            if rs_ and rb_:
+                p1 = dcfg.find_path(starts, ends_, N, cut_nodes=rs_ + resets, keep_edge=noexc_)
+                p2 = dcfg.find_path(starts, ends_, N, cut_nodes=rb_ + resets, keep_edge=noexc_)
+                p = p1 or p2
+                if p is None:
+                    resets = resets or (rs_ + rb_)
         R.check(p is None and resets, "C08.RESET", drain.qualname + ":guard-resets", R.site(drain, g.ast),
                 "when the stack limit is exceeded the scheduler is reset before RuntimeError is raised",
                 "the stack-limit branch raises without resetting the scheduler: batches scheduled by the runaway computation stay pending "
@@ -143,7 +165,9 @@ def reset_rules(R, ro):
         # executing when the RuntimeError reaches it (it may handle it and go on) - the active task is put back after the reset
         rs_fn = ro.TS.methods.get("reset")
         clears_active = rs_fn is not None and any(attr == "active_task" for recv, attr, nd in q.attr_stores(rs_fn.node) if recv == "self")
-        if clears_active and resets:
+        reset_calls = [n for n, c in kit.call_sites(drain, lambda c: q.call_name(c) == "self.reset")]
+        if clears_active and reset_calls:
+            resets = reset_calls
             restores = []
             for x in dcfg.nodes:
                 if x.kind == "stmt" and isinstance(x.ast, ast.Assign) and any(q.src(t) == "self.active_task" for t in x.ast.targets) and isinstance(x.ast.value, ast.Name):
